@@ -319,7 +319,7 @@ class C01(CheckBase):
                 "o1_head": (w[0]["bytes"][:300] if w else None), "end": obs["main"]["end"].get("end")}
 
     def extra_coverage(self, tier, results):
-        return {"schemas": [it["name"] for it in self.ss.items], "schemas_rejected": self.ss.rejected,
+        return {**pw.shipped_coverage(self.ss), "schemas": [it["name"] for it in self.ss.items], "schemas_rejected": self.ss.rejected,
                 "schema_sizes": {it["name"]: {"entities": len(it["sd"]["entities"]), "types": len(it["sd"]["types"])} for it in self.ss.items}}
 
     # --------------------------------------------------------------- shrink
